@@ -1035,94 +1035,313 @@ func (c *Ctx) makeIface(T types.Type, v Val) string {
 	return name
 }
 
-// evalOpaque: an opaque predicate is an uninterpreted Boolean function of its arguments and of the current
-// versions of exactly the heap components its body reads.  Two occurrences in states that agree on those
-// components are syntactically equal; the definition is only available where the contract says `reveal`.
+// opTemplate: the body of an opaque predicate evaluated once over placeholder parameters (@P<i>@) and placeholder
+// heap components (@C:<key>@).  Instances are obtained by textual substitution, which keeps the shape of the
+// uninterpreted function's argument list identical for every instance.
+type opTemplate struct {
+	body     string
+	keys     []string
+	sorts    map[string]string
+	rows     map[string][]string // per key: index-term templates when every read is select(C, t) with t free of the body's bound variables
+	asserts  []string            // facts emitted while evaluating the body (templates), re-emitted per instance
+	fn       string
+	fnSorts  []string
+}
+
+func (c *Ctx) opaqueTemplate(e *Env, p *PureDecl) *opTemplate {
+	if c.opTmpl == nil {
+		c.opTmpl = map[string]*opTemplate{}
+	}
+	if t, ok := c.opTmpl[p.Name]; ok {
+		return t
+	}
+	vars := map[string]Val{}
+	var argSorts []string
+	for i, b := range p.Params {
+		rt := c.resolveType(e.pkg, b.T)
+		vars[b.Name] = Val{T: rt.Go, ST: rt.S, L: []string{fmt.Sprintf("@P%d@", i)}}
+		argSorts = append(argSorts, c.sortOfRT(rt))
+	}
+	st := &State{heap: map[string]string{}, cells: map[*Cell]Val{}, tmpl: map[string]string{}}
+	n := &Env{c: c, st: st, vars: vars, pkg: e.pkg, guard: "true", depth: e.depth + 1}
+	nsym0 := c.nsym
+	items0 := len(c.items)
+	savedTop := c.top
+	// nested opaque predicates inside the body stay opaque in the template
+	body := n.evalBool(p.Body)
+	c.top = savedTop
+	// collect what the evaluation emitted: abbreviations are inlined, facts become templates, declarations stay
+	var keep []Item
+	defs := map[string]string{}
+	t := &opTemplate{sorts: map[string]string{}, rows: map[string][]string{}}
+	for _, it := range c.items[items0:] {
+		switch it.Kind {
+		case "def":
+			defs[it.Name] = it.Body
+		case "assert":
+			t.asserts = append(t.asserts, it.Body)
+		case "decl":
+			c.fail("spec: opaque predicate %s introduces a fresh symbol (%s); not supported", p.Name, it.Name)
+		default:
+			keep = append(keep, it)
+		}
+	}
+	c.items = append(c.items[:items0], keep...)
+	expand := func(s string) string {
+		for round := 0; round < 8; round++ {
+			changed := false
+			for name, b := range defs {
+				if strings.Contains(s, name) {
+					s = replaceWord2(s, name, b)
+					changed = true
+				}
+			}
+			if !changed {
+				break
+			}
+		}
+		return s
+	}
+	t.body = expand(body)
+	for i := range t.asserts {
+		t.asserts[i] = expand(t.asserts[i])
+	}
+	for k, srt := range st.tmpl {
+		t.keys = append(t.keys, k)
+		t.sorts[k] = srt
+	}
+	sortStrings(t.keys)
+	all := t.body + " " + strings.Join(t.asserts, " ")
+	sig := p.Name
+	t.fnSorts = append(t.fnSorts, argSorts...)
+	for _, k := range t.keys {
+		srt := t.sorts[k]
+		rows, ok := selectedRows(all, "@C:"+k+"@", nsym0)
+		elem := ""
+		if ok && strings.HasPrefix(srt, "(Array Ref ") {
+			elem = srt[len("(Array Ref ") : len(srt)-1]
+		}
+		if ok && elem != "" && len(rows) > 0 && len(rows) <= 8 {
+			t.rows[k] = rows
+			for range rows {
+				t.fnSorts = append(t.fnSorts, elem)
+			}
+			sig += fmt.Sprintf("|%s:%d", k, len(rows))
+		} else {
+			t.fnSorts = append(t.fnSorts, srt)
+			sig += "|" + k
+		}
+	}
+	t.fn = fmt.Sprintf("op_%s_%x", p.Name, hashStr(sig)&0xffffff)
+	c.declFun(t.fn, strings.Join(t.fnSorts, " "), SBool)
+	c.opTmpl[p.Name] = t
+	return t
+}
+
+// evalOpaque: an opaque predicate is an uninterpreted Boolean function of its arguments and of exactly what its
+// body reads from the heap.  Where every read of a component has the form select(C, t) with t free of the body's
+// own bound variables, the function takes those selected rows / cells (location-granular: a change of C elsewhere
+// leaves the application provably unchanged); otherwise it takes the whole component.  The definition is only
+// available where the contract says `reveal` (or at an explicit `unfold`).
 func (e *Env) evalOpaque(p *PureDecl, x *ECall) Val {
 	c := e.c
 	if len(p.Params) != len(x.Args) {
 		c.fail("spec: %s expects %d arguments", p.Name, len(p.Params))
 	}
-	vars := map[string]Val{}
-	var argTerms, argSorts []string
+	var argTerms []string
 	for i, b := range p.Params {
 		rt := c.resolveType(e.pkg, b.T)
 		v := e.eval(x.Args[i])
 		if v.Const != nil {
 			v = e.coerceConst(v, rt.Go)
 		}
-		v.St = nil
-		vars[b.Name] = v
 		if len(v.L) != 1 {
 			c.fail("spec: opaque predicate %s needs single-sorted arguments", p.Name)
 		}
 		argTerms = append(argTerms, v.L[0])
-		argSorts = append(argSorts, c.sortOfRT(rt))
 	}
-	n := *e
-	n.vars = vars
-	n.depth = e.depth + 1
-	if c.opReads == nil {
-		c.opReads = map[string][]string{}
+	t := c.opaqueTemplate(e, p)
+	if e.st.tmpl != nil {
+		// nested inside another template: stay symbolic
+		for _, k := range t.keys {
+			c.comp(e.st, k, t.sorts[k])
+		}
+	}
+	subst := func(s string) string {
+		for i, a := range argTerms {
+			s = strings.ReplaceAll(s, fmt.Sprintf("@P%d@", i), a)
+		}
+		for _, k := range t.keys {
+			ph := "@C:" + k + "@"
+			if strings.Contains(s, ph) {
+				s = strings.ReplaceAll(s, ph, c.comp(e.st, k, t.sorts[k]))
+			}
+		}
+		return s
+	}
+	terms := append([]string{}, argTerms...)
+	for _, k := range t.keys {
+		C := c.comp(e.st, k, t.sorts[k])
+		if rows, ok := t.rows[k]; ok {
+			for _, r := range rows {
+				terms = append(terms, tSel(C, subst(r)))
+			}
+		} else {
+			terms = append(terms, C)
+		}
 	}
 	reveal := c.top != nil && c.top.Reveal[p.Name]
-	keys, known := c.opReads[p.Name]
-	var body string
-	if !known || reveal {
-		saved := c.rec
-		c.rec = map[string]string{}
-		body = n.evalBool(p.Body)
-		for k := range c.rec {
-			found := false
-			for _, k2 := range keys {
-				if k2 == k {
-					found = true
-				}
-			}
-			if !found {
-				keys = append(keys, k)
-			}
-		}
-		sortStrings(keys)
-		c.opReads[p.Name] = keys
-		if saved != nil {
-			for k, s := range c.rec {
-				saved[k] = s
-			}
-		}
-		c.rec = saved
-	}
-	var terms, sorts []string
-	terms = append(terms, argTerms...)
-	sorts = append(sorts, argSorts...)
-	for _, k := range keys {
-		sort := c.compSort[k]
-		if sort == "" {
-			c.fail("spec: opaque predicate %s reads unknown component %s", p.Name, k)
-		}
-		terms = append(terms, c.comp(e.st, k, sort))
-		sorts = append(sorts, sort)
-	}
-	fn := fmt.Sprintf("op_%s_%d", p.Name, len(keys))
-	c.declFun(fn, strings.Join(sorts, " "), SBool)
 	bound := false
-	for _, a := range argTerms {
-		if strings.Contains(a, "!q") {
-			bound = true // instance under a quantifier: cannot be named at top level
+	for _, a := range terms {
+		if strings.Contains(a, "!q") || strings.Contains(a, "@P") {
+			bound = true // instance under a quantifier (or inside a template): cannot be named at top level
 		}
 	}
-	var t string
+	var atom string
 	if bound {
-		t = app(fn, terms...)
+		atom = app(t.fn, terms...)
 	} else {
-		t = c.define("op_"+p.Name, SBool, app(fn, terms...))
+		atom = c.define("op_"+p.Name, SBool, app(t.fn, terms...))
 	}
-	if reveal {
+	if reveal && e.st.tmpl == nil {
 		// where the definition is revealed the atom stands for "atom and body": assumptions get the body directly
 		// (quantifiers stay in positive position), goals are split into the body's conjuncts by splitGoal
-		return boolVal(tAnd(t, body))
+		body := subst(t.body)
+		for _, a := range t.asserts {
+			if !bound {
+				c.assume("true", subst(a))
+			}
+		}
+		return boolVal(tAnd(atom, body))
 	}
-	return boolVal(t)
+	return boolVal(atom)
+}
+
+// expandDefs replaces abbreviations (define-fun items) created after symbol counter n0 by their bodies.
+func (c *Ctx) expandDefs(t string, n0 int) string {
+	defs := map[string]string{}
+	for i := len(c.items) - 1; i >= 0; i-- {
+		it := c.items[i]
+		if it.Kind != "def" {
+			continue
+		}
+		k := strings.LastIndex(it.Name, "!")
+		if k < 0 {
+			continue
+		}
+		var num int
+		fmt.Sscanf(it.Name[k+1:], "%d", &num)
+		if num <= n0 {
+			break
+		}
+		defs[it.Name] = it.Body
+	}
+	if len(defs) == 0 {
+		return t
+	}
+	for round := 0; round < 6; round++ {
+		changed := false
+		for name, body := range defs {
+			if strings.Contains(t, name) {
+				t = replaceWord2(t, name, body)
+				changed = true
+			}
+		}
+		if !changed {
+			break
+		}
+	}
+	return t
+}
+
+func replaceWord2(s, w, r string) string {
+	var b strings.Builder
+	i := 0
+	for i < len(s) {
+		j := strings.Index(s[i:], w)
+		if j < 0 {
+			b.WriteString(s[i:])
+			break
+		}
+		j += i
+		before := j == 0 || !isSymCh(s[j-1])
+		after := j+len(w) >= len(s) || !isSymCh(s[j+len(w)])
+		b.WriteString(s[i:j])
+		if before && after {
+			b.WriteString(r)
+		} else {
+			b.WriteString(w)
+		}
+		i = j + len(w)
+	}
+	return b.String()
+}
+
+func isSymCh(c byte) bool {
+	return c == '_' || c == '!' || c == '.' || c >= '0' && c <= '9' || c >= 'a' && c <= 'z' || c >= 'A' && c <= 'Z'
+}
+
+// selectedRows: if every occurrence of symbol C in t is the array operand of a select whose index term contains no
+// bound variable introduced after n0, return the distinct index terms in order of appearance.
+func selectedRows(t, C string, n0 int) ([]string, bool) {
+	var rows []string
+	seen := map[string]bool{}
+	i := 0
+	for {
+		j := strings.Index(t[i:], C)
+		if j < 0 {
+			break
+		}
+		j += i
+		end := j + len(C)
+		if (j > 0 && isSymCh(t[j-1])) || (end < len(t) && isSymCh(t[end])) {
+			i = end
+			continue // part of a longer symbol
+		}
+		const pre = "(select "
+		if j < len(pre) || t[j-len(pre):j] != pre || end >= len(t) || t[end] != ' ' {
+			return nil, false
+		}
+		// parse the index term following "C "
+		k := end + 1
+		depth := 0
+		start := k
+		for k < len(t) {
+			ch := t[k]
+			if ch == '(' {
+				depth++
+			} else if ch == ')' {
+				if depth == 0 {
+					break
+				}
+				depth--
+				if depth == 0 {
+					k++
+					break
+				}
+			} else if ch == ' ' && depth == 0 {
+				break
+			}
+			k++
+		}
+		idx := t[start:k]
+		// bound variables of the body itself
+		for m := 0; m+2 < len(idx); m++ {
+			if idx[m] == '!' && idx[m+1] == 'q' {
+				var num int
+				fmt.Sscanf(idx[m+2:], "%d", &num)
+				if num > n0 {
+					return nil, false
+				}
+			}
+		}
+		if !seen[idx] {
+			seen[idx] = true
+			rows = append(rows, idx)
+		}
+		i = k
+	}
+	return rows, true
 }
 
 func sortStrings(a []string) {
